@@ -28,6 +28,8 @@ func main() {
 		runK2(r, n)
 	case "kver":
 		runKver(r, n)
+	case "k4":
+		runK4(r, n, true)
 	case "k3":
 		runK3(r, n)
 	case "kqid":
